@@ -931,7 +931,7 @@ func arMethodOrder(a abi.ABIContract) []string {
 // to the sending CONTRACT with empty call data, and applySend of that refund runs the method lookup of the destination.
 // ---------------------------------------------------------------------------------------------------
 
-var arScenarios = []string{"wrap-owned-unburnable", "wrap-owned-unburnable-htlc-regime"}
+var arScenarios = []string{"wrap-owned-unburnable", "wrap-owned-unburnable-htlc-regime", "wrap-owned-never-burnable", "wrap-owned-never-burnable-fee", "wrap-owned-unburnable-fee"}
 
 func (w *arWorld) runScenario(name string) {
 	r := w.r
@@ -978,15 +978,31 @@ func (w *arWorld) runScenario(name string) {
 		return
 	}
 	switch name {
-	case "wrap-owned-unburnable", "wrap-owned-unburnable-htlc-regime":
-		// The administrator lists a token as "owned" (wraps burn it, redeems mint it) that the bridge does not own:
-		// tokOwned, issued by User1, burnable. Wrapping works (anyone may burn a burnable token). Then the token's owner
-		// switches IsBurnable off (UpdateToken, his right at any time). The next wrap makes the bridge send
-		// Burn(amount) to the token contract; the burn is refused (not burnable, sender is not the owner); the refund of
-		// the amount goes to the bridge contract with empty data.
+	case "wrap-owned-unburnable", "wrap-owned-unburnable-htlc-regime", "wrap-owned-never-burnable", "wrap-owned-never-burnable-fee", "wrap-owned-unburnable-fee":
+		// The administrator lists a token as "owned" (wraps burn it, redeems mint it) that the bridge does not own.
+		//  -unburnable: tokOwned, issued by User1, burnable. Wrapping works (anyone may burn a burnable token). Then the token's
+		//    owner switches IsBurnable off (UpdateToken, his right at any time). The next wrap makes the bridge send
+		//    Burn(amount) to the token contract; the burn is refused (not burnable, sender is not the owner); the refund of
+		//    the amount goes to the bridge contract with empty data.
+		//  -never-burnable: tokFixed, issued by User2, never burnable: the first wrap already meets the refusal.
+		//  -fee: the pair takes a fee, the bridge keeps it and asks for a burn of amount - fee (the two amounts differ).
+		// Wrapped amounts: 500 in the two original scenarios, else one of a small family chosen by the seed.
+		tok, holder := w.tokOwned, g.User1.Address
+		never := strings.Contains(name, "never-burnable")
+		if never {
+			tok, holder = w.tokFixed, g.User2.Address
+		}
+		fee := uint32(0)
+		if strings.HasSuffix(name, "-fee") {
+			fee = uint32(15)
+		}
+		amount := big.NewInt(500)
+		if name != "wrap-owned-unburnable" && name != "wrap-owned-unburnable-htlc-regime" {
+			amount = big.NewInt([]int64{1, 2, 7, 500, 9985, 10000, 65536, 100000, 1000000}[r.c.R.Intn(9)])
+		}
 		pair := func() {
 			send(&nom.AccountBlock{Address: w.admin, ToAddress: types.BridgeContract, Data: definition.ABIBridge.PackMethodPanic(definition.SetTokenPairMethod,
-				uint32(2), uint32(123), w.tokOwned, "0x5bbbb2315678afecb367f032d93f642f64180aa3", true, true, true, big.NewInt(1), uint32(0), uint32(2), `{}`)})
+				uint32(2), uint32(123), tok, "0x5bbbb2315678afecb367f032d93f642f64180aa3", true, true, true, big.NewInt(1), fee, uint32(2), `{}`)})
 		}
 		pair()
 		if !steps(int(constants.MinSoftDelay) + 2) {
@@ -997,17 +1013,19 @@ func (w *arWorld) runScenario(name string) {
 			return
 		}
 		wrap := func() *nom.AccountBlock {
-			return send(&nom.AccountBlock{Address: g.User1.Address, ToAddress: types.BridgeContract, TokenStandard: w.tokOwned, Amount: big.NewInt(500),
+			return send(&nom.AccountBlock{Address: holder, ToAddress: types.BridgeContract, TokenStandard: tok, Amount: new(big.Int).Set(amount),
 				Data: definition.ABIBridge.PackMethodPanic(definition.WrapTokenMethodName, uint32(2), uint32(123), arEvmAdr2)})
 		}
-		if wrap() == nil || !steps(3) { // burnable: wrap applied, burn applied
-			return
-		}
-		r.c.Hit("scenario-wrap-while-burnable-done")
-		send(&nom.AccountBlock{Address: g.User1.Address, ToAddress: types.TokenContract,
-			Data: definition.ABIToken.PackMethodPanic(definition.UpdateTokenMethodName, w.tokOwned, g.User1.Address, true, false)})
-		if !steps(2) {
-			return
+		if !never {
+			if wrap() == nil || !steps(3) { // burnable: wrap applied, burn applied
+				return
+			}
+			r.c.Hit("scenario-wrap-while-burnable-done")
+			send(&nom.AccountBlock{Address: g.User1.Address, ToAddress: types.TokenContract,
+				Data: definition.ABIToken.PackMethodPanic(definition.UpdateTokenMethodName, w.tokOwned, g.User1.Address, true, false)})
+			if !steps(2) {
+				return
+			}
 		}
 		if wrap() == nil {
 			return
